@@ -15,6 +15,7 @@ update is a `SpinFlipStep` (QmcProofs/Refinement*.lean), `step_pres` (C06/C07), 
 import QmcModel.SamplerCore
 import QmcProofs.SamplerBridge
 import QmcProofs.Refinement
+import QmcProofs.SamplerLoopEq
 
 namespace Qmc.Sampler
 open Qmc Qmc.Refine
@@ -381,5 +382,65 @@ example (hb : Bool) (CK : ClusterK) (hCK : ClusterCert spec3.ham (CK (1 / 2) (ex
     ∀ t ∈ isingTraceWith CK βs (exIsing hb) (RS.ofScript ws),
       IsingInv t ∧ t.n < t.cutoff ∧ t.n + t.n / 2 + 1 ≤ t.cutoff ∧ 5 ≤ t.cutoff :=
   isingTraceWith_inv CK βs _ _ (exIsing_inv hb) hCK
+
+/-- the copy of the loop update the whole-step model and `drv_step` run (`loopK`, QmcModel/Sampler.lean)
+satisfies the loop hypothesis, because it IS C04's `loopUpdate` (`stepLoop_eq`) -/
+theorem loopK_stepOK (H : Ham) (n : Nat) : LoopCert H n StepLoop.loopUpdate := by
+  rw [stepLoop_funext]; exact loopUpdate_loopCert H n
+
+/-! ### example (non-vacuity), generic sampler: two variables, a constant single-site term (cluster edge)
+and a symmetric diagonal two-site term, loop updates on, empty string, cutoff 2 -/
+
+theorem gbond_w_nonneg (b : GBond) (h : ∀ x ∈ b.mat, 0 ≤ x) (i o : List Bool) : 0 ≤ b.w i o := by
+  have hg : ∀ k, 0 ≤ b.mat.getD k 0 := by
+    intro k
+    rw [List.getD_eq_getElem?_getD]
+    cases hk : b.mat[k]? with
+    | none => exact Rat.le_refl
+    | some x => exact h x (List.mem_of_getElem? hk)
+  unfold GBond.w
+  split
+  · exact Rat.le_refl
+  · split
+    · split <;> exact hg _
+    · split
+      · exact hg _
+      · exact Rat.le_refl
+
+theorem genericHam_nonneg (bs : List GBond) (h : ∀ b ∈ bs, ∀ x ∈ b.mat, 0 ≤ x) (b : Nat) (i o : List Bool) :
+    0 ≤ (genericHam bs).w b i o := by
+  simp only [genericHam]
+  cases hb : bs[b]? with
+  | none => exact Rat.le_refl
+  | some g => exact gbond_w_nonneg g (h g (List.mem_of_getElem? hb)) i o
+
+def exGeneric : GenericSampler :=
+  ((GenericSampler.new [false, true] true).addInteraction ⟨true, [0], [1 / 2, 1 / 2, 1 / 2, 1 / 2]⟩).addInteraction
+    ⟨false, [0, 1], [1, 0, 0, 1]⟩
+
+theorem exGeneric_inv : GenericInv exGeneric 2 where
+  wf := hamWFB_sound _ _ (by decide)
+  nonneg := fun b _ st => genericHam_nonneg _ (by
+    intro g hg x hx
+    simp only [exGeneric, GenericSampler.addInteraction, GenericSampler.new, List.nil_append, List.cons_append,
+      List.mem_cons, List.not_mem_nil, or_false] at hg
+    rcases hg with rfl | rfl <;> simp only [List.mem_cons, List.not_mem_nil, or_false] at hx <;>
+      rcases hx with rfl | rfl | rfl | rfl <;> norm_num) b st st
+  table := by intro t ht; simp [exGeneric, GenericSampler.addInteraction, GenericSampler.new] at ht
+  len := rfl
+  fits := by decide
+  cons := by decide
+  legal := by intro o ho; simp [exGeneric, GenericSampler.addInteraction, GenericSampler.new, GenericSampler.cfg] at ho
+
+/-- the gate is open on this sampler: loop update AND cluster update both run in every step -/
+example : exGeneric.doLoop = true ∧ exGeneric.shouldCluster = true := by decide +kernel
+
+/-- every run of whole generic time steps from it with the loop update of the model, any certified cluster
+kernel, any βs and script on which the loop updates closed -/
+example (CK : ClusterK) (hCK : ClusterCert exGeneric.ham (CK (1 / 2) fun _ => false)) (βs : List Rat) (ws : List Nat)
+    (hcl : GenericLoopsClosed StepLoop.loopUpdate CK βs exGeneric (RS.ofScript ws)) :
+    ∀ t ∈ genericTraceWith StepLoop.loopUpdate CK βs exGeneric (RS.ofScript ws),
+      GenericInv t 2 ∧ t.n < t.cutoff ∧ t.n + t.n / 2 + 1 ≤ t.cutoff ∧ 2 ≤ t.cutoff :=
+  genericRunWith_inv _ CK 2 βs _ _ exGeneric_inv (loopK_stepOK _ _) hCK hcl
 
 end Qmc.Sampler
